@@ -6,7 +6,9 @@
    combinations of parts an externally mapped instance may have are arguments (the second is the
    subject of C08).  Paths the model does not follow - the recovery from text that is no instance
    (FindStartOfInstance) and scope instances - end the run with the status Unmodelled; everything
-   created up to there is still reported.  No proofs here; extracted for the correspondence check. *)
+   created up to there is still reported.  The second half of the file describes the data sections the
+   theorems of P21Pass1_Proofs.v speak about: simple and externally mapped instances in any layout.
+   No proofs here; extracted for the correspondence check. *)
 From Coq Require Import List ZArith Bool NArith.
 From SC Require Import P21Lex P21Str P21Sep P21Skip.
 Import ListNotations.
@@ -91,6 +93,18 @@ Definition skip_simple_record (l : list byte) : option (list byte) :=
   | [] => Some []
   end.
 
+(* the inner loop of CreateSubSuperInstance: skip what is neither a letter nor the closing parenthesis.
+   None: out of fuel; Some []: the input ended *)
+Fixpoint skip_junk (g : nat) (m : list byte) : option (list byte) :=
+  match g with
+  | O => None
+  | S g' =>
+    match skip_ws m with
+    | [] => Some []
+    | x :: m' => if (x =? RPAR) || is_alpha x then Some (x :: m') else skip_junk g' m'
+    end
+  end.
+
 (* the loop of CreateSubSuperInstance after the opening parenthesis: the names of the parts; the closing
    parenthesis of the whole record is left in the stream *)
 Fixpoint part_names (fuel : nat) (l : list byte) (acc : list (list byte)) : option (list (list byte) * list byte) :=
@@ -104,20 +118,15 @@ Fixpoint part_names (fuel : nat) (l : list byte) (acc : list (list byte)) : opti
       else if Nat.leb 63 (length acc) then Some (acc, l)           (* enaSize - 1 names at most *)
       else
         let '(nm, r1) := read_std_keyword l in
+        let acc' := acc ++ match nm with [] => [] | _ => [nm] end in
         match (match nm with [] => Some r1 | _ => skip_simple_record r1 end) with
-        | None => Some (acc ++ match nm with [] => [] | _ => [nm] end, [])
+        | None => Some (acc', [])
         | Some r2 =>
-          (* skip what is neither a letter nor the closing parenthesis *)
-          let acc' := acc ++ match nm with [] => [] | _ => [nm] end in
-          (fix junk (g : nat) (m : list byte) : option (list (list byte) * list byte) :=
-             match g with
-             | O => None
-             | S g' =>
-               match skip_ws m with
-               | [] => Some (acc', [])
-               | x :: m' => if (x =? RPAR) || is_alpha x then part_names f (x :: m') acc' else junk g' m'
-               end
-             end) (S (length r2)) r2
+          match skip_junk (S (length r2)) r2 with
+          | None => None
+          | Some [] => Some (acc', [])
+          | Some m => part_names f m acc'
+          end
         end
     end
   end.
@@ -250,3 +259,101 @@ Fixpoint insts_ok (is : list sinst) (tail : list byte) : bool :=
   end.
 
 Definition sinst_summary (i : sinst) : created := CSimple (ival (si_ds i)) (si_kw i).
+
+(* ------------------------------------------------------------------------------------------
+   Externally mapped (complex) instances:  #n = ( PART_A(...) PART_B(...) ... );
+   ------------------------------------------------------------------------------------------ *)
+Inductive btok : Set :=
+| BStr (its : list item)
+| BOpen
+| BClose
+| BChr (c : byte).          (* anything but parentheses and apostrophes *)
+
+Definition btext (t : btok) : list byte :=
+  match t with
+  | BStr its => APOS :: body its ++ [APOS]
+  | BOpen => [LPAR]
+  | BClose => [RPAR]
+  | BChr c => [c]
+  end.
+Definition brender (ts : list btok) : list byte := flat_map btext ts.
+
+Definition bchr_ok (c : byte) : bool := negb (c =? LPAR) && negb (c =? RPAR) && negb (c =? APOS).
+
+(* the last token, and no token before it, closes the parenthesis that is open d deep *)
+Fixpoint closes (d : nat) (ts : list btok) : bool :=
+  match ts with
+  | [] => false
+  | BClose :: r =>
+    match d with
+    | O => false
+    | S O => match r with [] => true | _ => false end
+    | S d' => closes d' r
+    end
+  | BOpen :: r => closes (S d) r
+  | BStr its :: r => forallb item_ok its && negb (head_is (fun c => c =? APOS) (brender r)) && closes d r
+  | BChr c :: r => bchr_ok c && closes d r
+  end.
+
+Record cpart : Set := mkCP {
+  cp_name : list byte;
+  cp_ws1 : list byte;        (* white space before the opening parenthesis *)
+  cp_toks : list btok;       (* the values and the closing parenthesis *)
+  cp_ws2 : list byte         (* white space after it *)
+}.
+
+Definition cpart_text (p : cpart) : list byte :=
+  cp_name p ++ cp_ws1 p ++ LPAR :: brender (cp_toks p) ++ cp_ws2 p.
+
+Definition cpart_ok (p : cpart) : bool :=
+  forallb is_alnum_us (cp_name p) && head_is is_alpha (cp_name p) && forallb is_space (cp_ws1 p)
+  && closes 1 (cp_toks p) && forallb is_space (cp_ws2 p).
+
+Record cinst : Set := mkCI {
+  ci_s0 : seps;
+  ci_s1 : seps;
+  ci_ds : list byte;
+  ci_s2 : seps;
+  ci_s3 : seps;
+  ci_ws0 : list byte;        (* white space after the opening parenthesis *)
+  ci_parts : list cpart;
+  ci_rec : list stok         (* between the closing parenthesis and the semicolon *)
+}.
+
+Definition cinst_body (i : cinst) : list byte :=
+  seps_text (ci_s1 i) ++ ci_ds i ++ seps_text (ci_s2 i) ++ EQUALS :: seps_text (ci_s3 i)
+  ++ LPAR :: ci_ws0 i ++ flat_map cpart_text (ci_parts i) ++ RPAR :: srender (ci_rec i) ++ [SEMI].
+
+Definition cinst_ok (i : cinst) (next : list byte) : bool :=
+  seps_ok (ci_s0 i) && seps_ok (ci_s1 i) && seps_ok (ci_s2 i) && seps_ok (ci_s3 i)
+  && forallb is_digit (ci_ds i) && negb (Nat.eqb (length (ci_ds i)) 0) && (ival (ci_ds i) <=? INT_MAX)%Z
+  && forallb is_space (ci_ws0 i) && forallb cpart_ok (ci_parts i) && Nat.leb (length (ci_parts i)) 63
+  && stoks_ok (ci_rec i) (SEMI :: next).
+
+(* a data section of instances of both kinds *)
+Inductive inst : Set := ISimple (i : sinst) | IComplex (i : cinst).
+
+Definition inst_s0 (i : inst) : seps := match i with ISimple s => si_s0 s | IComplex c => ci_s0 c end.
+Definition inst_body (i : inst) : list byte := match i with ISimple s => sinst_body s | IComplex c => cinst_body c end.
+Definition inst_text (i : inst) : list byte := seps_text (inst_s0 i) ++ HASH :: inst_body i.
+Definition inst_ok (i : inst) (next : list byte) : bool :=
+  match i with ISimple s => sinst_ok s next | IComplex c => cinst_ok c next end.
+Definition inst_id (i : inst) : Z := match i with ISimple s => ival (si_ds s) | IComplex c => ival (ci_ds c) end.
+Definition inst_summary (i : inst) : created :=
+  match i with
+  | ISimple s => sinst_summary s
+  | IComplex c => CComplex (ival (ci_ds c)) (map cp_name (ci_parts c))
+  end.
+
+Fixpoint ginsts_ok (is : list inst) (tail : list byte) : bool :=
+  match is with
+  | [] => true
+  | i :: r => inst_ok i (flat_map inst_text r ++ tail) && ginsts_ok r tail
+  end.
+
+(* the registry can make it: the keyword of a simple instance, the combination of parts of a complex one *)
+Definition inst_accepted (creatable : list byte -> bool) (legal : list (list byte) -> option bool) (i : inst) : bool :=
+  match i with
+  | ISimple s => creatable (si_kw s)
+  | IComplex c => match legal (map cp_name (ci_parts c)) with Some true => true | _ => false end
+  end.
